@@ -864,4 +864,174 @@ def wfCallable (ns : Str) (c : Callable) : Bool :=
       -- the reader resolves closure / destroy / array length only for <parameter> elements
       | some p => wfParam ns p && p.closureName.isNone && p.destroyName.isNone && (tyLength p.ty).isNone)
 
+/-! ### members of a record / union: `GIRWriter._write_field`, `GIRParser._parse_fields`, `_parse_field`
+    and the array-length pass of `_parse_compound`
+
+  `compound.fields` holds one `ast.Field` per member.  A member is written as `<field>TYPE</field>`,
+  as `<field><callback/></field>` (function pointer member: `anonymous_node` is an `ast.Callback`)
+  or as a bare `<record>` / `<union>` element (anonymous struct / union member: `anonymous_node`
+  is an `ast.Record` / `ast.Union` whose name and ctype are the member's identifier,
+  `Transformer._create_member_compound`; its CONTENT goes through `_write_record` / `_parse_compound`
+  again and is not modelled here: the element is written empty).
+  The `length` attribute of an array-typed field is the index of the length field in
+  `compound.fields` (`Compound.get_field_index`), anonymous members included. -/
+
+inductive MemberBody where
+  | typed (ty : Ty)
+  | callback (cb : Callable)
+  | anon (tag : String)
+  deriving Repr, DecidableEq, Inhabited
+
+/-- `ast.Field` with what the writer looks at -/
+structure Member where
+  name : Option Str
+  body : MemberBody
+  readable : Bool
+  writable : Bool
+  /-- `Field.bits`: an int from the scanner, the attribute text from the reader; `if field.bits:` / `str(field.bits)` -/
+  bits : Option Str
+  isPrivate : Bool
+  version : Option Str
+  skip : Bool
+  introspectable : Bool
+  deprecated : Option Str
+  stability : Option Str
+  docs : Docs
+  deriving Repr, DecidableEq, Inhabited
+
+def memberNames (ms : List Member) : List (Option Str) := ms.map (·.name)
+
+/-- `_append_version` + `_append_node_generic` -/
+def genericAttrs (m : Member) : List (String × Option Str) := [
+  ("version", keepTruthy m.version),
+  ("introspectable", optIf (m.skip || !m.introspectable) sZero),
+  ("deprecated", optIf (truthy m.deprecated || truthy m.docs.deprecatedDoc) sOne),
+  ("deprecated-version", keepTruthy m.deprecated),
+  ("stability", keepTruthy m.stability)]
+
+/-- `_write_callback(field.anonymous_node)`: always a `<callback>` element of an `ast.Callback` -/
+def asCallback (cb : Callable) : Callable := { cb with klass := .callback, tag := "callback" }
+
+/-- `GIRWriter._write_field(field, parent)` for a record / union `parent`; `names` = the names of `parent.fields` -/
+def writeMember (ns : Str) (names : List (Option Str)) (m : Member) : Except Err Xml :=
+  match m.body with
+  | .anon tag =>
+    -- `_write_record(field.anonymous_node)` / `_write_union(...)`: nothing of the Field itself is written
+    .ok (.elem tag (compact [("name", m.name), ("c:type", m.name)]) [] none)
+  | .callback cb => do
+    let dk ← writeDocs m.docs
+    let c ← writeCallable ns (asCallback cb)
+    pure (.elem "field" (compact ([("name", m.name)] ++ genericAttrs m)) (dk ++ [c]) none)
+  | .typed ty => do
+    let dk ← writeDocs m.docs
+    let t ← writeType ns (some names) ty
+    pure (.elem "field" (compact ([("name", m.name)] ++ genericAttrs m ++ [
+        ("readable", optIf (!m.readable) sZero),
+        ("writable", optIf m.writable sOne),
+        ("bits", keepTruthy m.bits),
+        ("private", optIf m.isPrivate sOne)])) (dk ++ [t]) none)
+
+/-- `for field in record.fields: self._write_field(field, record)` -/
+def writeMembers (ns : Str) (ms : List Member) : Except Err (List Xml) :=
+  mapMExcept (writeMember ns (memberNames ms)) ms
+
+def anonTags : List String := ["callback", "record", "union"]
+def memberTags : List String := ["field", "record", "union", "callback"]
+
+/-- `GIRParser._parse_field(node, parent)` (the array length is resolved by `_parse_compound`) -/
+def parseMember (ns : Str) (x : Xml) : Except Err Member :=
+  let anonymousElt : Option Xml := if anonTags.contains x.tag then some x else findTag "callback" x.kids
+  let body : Except Err MemberBody :=
+    match anonymousElt with
+    | some a =>
+      if a.tag = "callback" then (parseCallable ns .callback a).map .callback
+      -- `_parse_record(anonymous_elt, anonymous=True)` / `_parse_union`: content not modelled
+      else .ok (.anon a.tag)
+    | none =>
+      if x.tag = "field" then (parseType ns x.kids).map .typed else .error .assertion
+  match body with
+  | .error e => .error e
+  | .ok body =>
+    let a := x.attrs
+    match parseDocs false x.kids with
+    | .error e => .error e
+    | .ok docs => .ok {
+        name := attrGet "name" a, body := body,
+        readable := !(attrGet "readable" a == some sZero), writable := attrGet "writable" a == some sOne,
+        bits := attrGet "bits" a, isPrivate := attrGet "private" a == some sOne,
+        version := keepTruthy (attrGet "version" a), skip := parseFlag false (attrGet "skip" a),
+        introspectable := parseFlag true (attrGet "introspectable" a),
+        deprecated := keepTruthy (attrGet "deprecated-version" a),
+        stability := keepTruthy (attrGet "stability" a), docs := docs }
+
+/-- `_parse_type_array_length(compound.fields, fieldnode, field.type)` on a member: `field.type` is `None`
+    for callback / anonymous members, and then `typeval.length_param_name = …` raises if it is reached -/
+def lengthUpd (names : List (Option Str)) (node : Xml) (m : Member) : Except Err Member :=
+  match m.body with
+  | .typed t =>
+    match parseTypeArrayLength names node.kids t with
+    | .error e => .error e
+    | .ok t' => .ok { m with body := .typed t' }
+  | _ =>
+    match parseTypeArrayLength names node.kids .unknown with
+    | .error e => .error e
+    | .ok _ =>
+      match findTag "array" node.kids with
+      | none => .ok m
+      | some typenode => if (attrGet "length" typenode.attrs).isSome then .error .attributeError else .ok m
+
+/-- `for i, fieldnode in enumerate(self._find_children(node, 'field')): field = compound.fields[i]; …`:
+    the i-th `<field>` ELEMENT is paired with the i-th entry of `compound.fields` -/
+def lengthPass (names : List (Option Str)) : List Xml → List Member → Except Err (List Member)
+  | [], ms => .ok ms
+  | _ :: _, [] => .error .indexError
+  | n :: ns, m :: ms =>
+    match lengthUpd names n m with
+    | .error e => .error e
+    | .ok m' => match lengthPass names ns ms with
+      | .error e => .error e
+      | .ok rest => .ok (m' :: rest)
+
+/-- the member-related part of `GIRParser._parse_compound(cls, node)` on the children of `node`:
+    `compound.fields.extend(self._parse_fields(node, compound))`, then the array-length loop -/
+def parseMembers (ns : Str) (kids : List Xml) : Except Err (List Member) :=
+  match mapMExcept (parseMember ns) (kids.filter (fun x => memberTags.contains x.tag)) with
+  | .error e => .error e
+  | .ok ms => lengthPass (memberNames ms) (findAllTag "field" kids) ms
+
+def memberDropLen (m : Member) : Member :=
+  match m.body with
+  | .typed t => { m with body := .typed (dropLen t) }
+  | _ => m
+
+/-- what a read/write cycle keeps of a member.  An anonymous struct / union member is written through its
+    `anonymous_node` alone: the `ast.Field` read back has the reader's defaults. -/
+def canonMember (m : Member) : Member :=
+  match m.body with
+  | .anon tag =>
+    { name := m.name, body := .anon tag, readable := true, writable := false, bits := none, isPrivate := false,
+      version := none, skip := false, introspectable := true, deprecated := none, stability := none, docs := {} }
+  | .callback cb =>
+    { m with body := .callback (canonCallable (asCallback cb)), readable := true, writable := false, bits := none,
+             isPrivate := false, version := keepTruthy m.version, skip := false,
+             introspectable := m.introspectable && !m.skip, deprecated := keepTruthy m.deprecated,
+             stability := keepTruthy m.stability, docs := canonDocs m.docs }
+  | .typed t =>
+    { m with body := .typed (canonTy t), bits := keepTruthy m.bits, version := keepTruthy m.version, skip := false,
+             introspectable := m.introspectable && !m.skip, deprecated := keepTruthy m.deprecated,
+             stability := keepTruthy m.stability, docs := canonDocs m.docs }
+
+def wfMember (ns : Str) (m : Member) : Bool :=
+  match m.body with
+  | .anon tag => tag == "record" || tag == "union"
+  | .callback cb => wfCallable ns (asCallback cb) && wfDocs false m.docs
+  | .typed t => wfTy ns t && wfDocs false m.docs
+
+/-- written as a `<field>` element -/
+def isFieldElem (m : Member) : Bool :=
+  match m.body with
+  | .anon _ => false
+  | _ => true
+
+
 end GIVerif.GirCodec
